@@ -333,7 +333,8 @@ pub fn run(ctx: &mut Ctx) {
         let mut r = Rng::derive(ctx.seed, &[17, 99, j]);
         let cap = *r.pick(&[1usize, 2, 3, 5, 10, 100]);
         let queue = r.bool();
-        let n = ctx.n(3000, 10000);
+        // (fuzz mode: short histories, the tape drives many of them)
+        let n = if ctx.is_fuzz() { 300 } else { ctx.n(3000, 10000) };
         let bias = r.below(3);
         let h: Vec<Op> = (0..n)
             .map(|_| match (bias, r.below(12)) {
@@ -354,7 +355,7 @@ pub fn run(ctx: &mut Ctx) {
     // endurance: very long histories WITHOUT flush on the capacities pushr really uses (3, 10, 100)
     // and a few others: counters that wrap (u8 / u16) or drift only show after tens of thousands of
     // cursor advances
-    let elen = ctx.n(160_000, 1_200_000);
+    let elen = if ctx.is_fuzz() { 0 } else { ctx.n(160_000, 1_200_000) };
     for (j, cap) in [3usize, 10, 100, 7, 1, 16].iter().enumerate() {
         for queue in [true, false] {
             case += 1;
